@@ -32,6 +32,7 @@ class State:
         self.crash_when = 'before'
         self.err_at = None
         self.err_no = None
+        self.rerr_at = None
         self.last_wopen = None
         self.run_faults = {}      # slug -> [kind, at]
         self.run_counter = 0
@@ -130,7 +131,16 @@ def _hook(event, args):
         else:
             if os.path.isdir(p):
                 return
-            ST.fs.append(['ropen', p[len(ST.store):]])
+            rel = p[len(ST.store):]
+            if ST.rerr_at is not None and not rel.endswith('.lock'):
+                if ST.rerr_at == 0:
+                    # transient read error (EMFILE/EIO) on opening a stored file
+                    ST.rerr_at = None
+                    ST.fired.append(['diskerr', 'ropen', rel])
+                    ST.fs.append(['!ropen', rel])
+                    raise OSError(ST.err_no or errno.EIO, os.strerror(ST.err_no or errno.EIO), p)
+                ST.rerr_at -= 1
+            ST.fs.append(['ropen', rel])
         return
     if event in ('os.remove', 'os.rmdir', 'os.mkdir'):
         p = _abspath(args[0], args[-1])
@@ -241,7 +251,11 @@ def _generic_run(self, cspec, argvals):
         else:
             t = self.input_tasks[inp['_lookup']]
             val = t.value
-        reads[relname] = V.digest(V.canon_observed(inp['_kind'], val))
+        saved_rerr, ST.rerr_at = ST.rerr_at, None      # the run body's own reading of an input value is user code, not a fault site
+        try:
+            reads[relname] = V.digest(V.canon_observed(inp['_kind'], val))
+        finally:
+            ST.rerr_at = saved_rerr
     if fault and fault[0] == 'raise_after_inputs':
         del ST.run_faults[slug]
         ST.fired.append(['runfault', slug, 'raise_after_inputs'])
@@ -1070,7 +1084,8 @@ def run_process(job, out_fd):
         ST.crash_at = c['k'] if c else None
         ST.crash_when = (c or {}).get('when', 'before')
         e = op.get('diskerr')
-        ST.err_at = e['k'] if e else None
+        ST.err_at = e['k'] if e and not e.get('read') else None
+        ST.rerr_at = e['k'] if e and e.get('read') else None
         ST.err_no = getattr(errno, e['errno']) if e else None
         clock0 = ST.clock.base + ST.clock.ticks
         ST.active = True
@@ -1082,6 +1097,7 @@ def run_process(job, out_fd):
         ST.crash_at = None
         sys.setprofile(None)
         ST.err_at = None
+        ST.rerr_at = None
         _emit({'i': op['i'], 'res': res, 'inv': ST.inv, 'fs': ST.fs, 'fired': ST.fired, 'clock': [clock0, ST.clock.base + ST.clock.ticks]})
     if cover is not None:
         sys.settrace(None)
